@@ -20,8 +20,39 @@ class BuildModel(KModel):
     """the coefficient routine answers two placeholder arrays (its content is C02/C03's subject)"""
     def call(self, name, cal, args, e, frame):
         if self.interp.lib.is_role(name, 'CubicSpline::calc_coefficients'):
-            return OK(Tup([Obj('data', name='a', lead=1, idx=[]), Obj('data', name='b', lead=1, idx=[])]))
+            return OK(coefficient_pair(self.interp.lib, [Obj('data', name='a', lead=1, idx=[]), Obj('data', name='b', lead=1, idx=[])]))
         return super().call(name, cal, args, e, frame)
+
+
+def coefficient_pair(lib, arrays):
+    """the two coefficient arrays in the aggregate the coefficient routine returns: a tuple, or a private struct whose (array-typed)
+    fields take them in declaration order"""
+    from .thir import strip_generics
+    b = lib.body('CubicSpline::calc_coefficients')
+    sig = (b or {}).get('sig') or ''
+    import re
+    m = re.search(r'->\s*(?:std::result::)?Result<\s*([A-Za-z_][\w:]*)\s*<', sig)
+    if m:
+        adt = strip_generics(m.group(1))
+        for a in lib.f.get('adts', []):
+            if a['path'] == adt and a.get('kind') == 'Struct' and a.get('variants'):
+                fs = [f_['name'] for f_ in a['variants'][0]['fields'] if 'ndarray::ArrayBase<' in f_['ty']]
+                if len(fs) == len(arrays):
+                    return Enum(adt, a['variants'][0]['name'], dict(zip(fs, arrays)))
+    return Tup(list(arrays))
+
+
+def aggregate_arrays(lib, v):
+    """the array-valued components of a tuple / struct value, in order"""
+    v = deref_all(v)
+    if isinstance(v, Tup):
+        return list(v.items)
+    if isinstance(v, Enum):
+        for a in lib.f.get('adts', []):
+            if a['path'] == v.adt and a.get('variants'):
+                return [v.fields[f_['name']] for f_ in a['variants'][0]['fields'] if f_['name'] in v.fields]
+        return [v.fields[k] for k in sorted(v.fields)]
+    return None
 
 
 def _need(lib, *paths):
